@@ -361,8 +361,14 @@ def obj_special(ex, ref, name, args):
 # ---------------------------------------------------------------------------
 
 
+RECV_MODELS: dict = {}  # type of an engine-level receiver value -> handler(ex, recv, name, args, kwargs) (extension hook)
+
+
 def call_method(ex, recv, name, args, kwargs, node=None):
     args = [M.plain(a) if not isinstance(a, (Sym, Ref)) else a for a in args]
+    h = RECV_MODELS.get(type(recv))
+    if h is not None:
+        return h(ex, recv, name, args, kwargs)
     if isinstance(recv, OpaqueStr):
         return OpaqueStr()
     if isinstance(recv, Ref):
@@ -1532,6 +1538,15 @@ def event_method(ex, recv, name, args):
 LIB_METHODS = {asyncio.Event: event_method}
 
 
+def _deep_conc(ex, a):
+    """a value python itself can take as an argument of a native method: no symbolic part, no engine-level wrapper"""
+    if isinstance(a, ConcIter):
+        return False
+    if isinstance(a, (tuple, list)):
+        return all(_deep_conc(ex, x) for x in a)
+    return ex.is_conc(a)
+
+
 def call_native(ex, f, args, kwargs, node=None):
     # contract kwarg `stubs={native callable: Callback}`: a library function outside the kernel
     # (asyncio.wait_for, asyncio.create_task, ...) is replaced by a recorded callback (environment)
@@ -1574,7 +1589,7 @@ def call_native(ex, f, args, kwargs, node=None):
     recv = getattr(f, '__self__', None)
     name = getattr(f, '__name__', None)
     if recv is not None and not isinstance(recv, types.ModuleType) and name:
-        conc = all(ex.is_conc(a) and not isinstance(a, ConcIter) for a in args) and all(ex.is_conc(a) for a in kwargs.values())
+        conc = all(_deep_conc(ex, a) for a in args) and all(_deep_conc(ex, a) for a in kwargs.values())
         if conc and (isinstance(recv, (int, str, bytes, tuple, frozenset, float, range, enum.Enum)) or isinstance(recv, type)):
             try:
                 return ex.import_native(f(*args, **kwargs))
